@@ -417,7 +417,120 @@ def r20_5(chk):
     chk.floor("R20.5", 14, "equality-based operations of Table")
 
 
+def _self_attr_flow(ci, fn, value, depth=1):
+    """data attributes of self whose value flows into `value` inside fn (through locals; property getters of the
+    class are expanded one level through what they return)"""
+    names = D.names_in(value)
+    exprs = [value]
+    binds = list(D.assignments(fn))
+    # comprehension and for targets bind from their iterables
+    for c in ast.walk(fn):
+        if isinstance(c, ast.comprehension):
+            binds.append(([c.target], c.iter, None))
+    changed = True
+    seen = set()
+    while changed:
+        changed = False
+        for tg, v, _ in binds:
+            tn = set()
+            for t in tg:
+                for el in (t.elts if isinstance(t, (ast.Tuple, ast.List)) else [t]):
+                    if isinstance(el, ast.Name):
+                        tn.add(el.id)
+                    # stores through a local (arr[i] = self[c]) feed the local
+                    if isinstance(el, ast.Subscript) and isinstance(el.value, ast.Name):
+                        tn.add(el.value.id)
+            tn.discard("self")
+            if tn & names and id(v) not in seen:
+                seen.add(id(v))
+                exprs.append(v)
+                new = D.names_in(v) - names
+                if new:
+                    names |= new
+                changed = True
+    out = set()
+    for e in exprs:
+        for n in ast.walk(e):
+            if isinstance(n, ast.Attribute) and isinstance(n.value, ast.Name) and n.value.id == "self":
+                if n.attr in ci.properties and depth:
+                    g = ci.properties[n.attr].get("get")
+                    if g is not None:
+                        for r in ast.walk(g):
+                            if isinstance(r, ast.Return) and r.value is not None:
+                                out |= _self_attr_flow(ci, g, r.value, depth - 1)
+                else:
+                    out.add(n.attr)
+            if isinstance(n, ast.Call) and call_name(n) == "len" and n.args and norm(n.args[0]) == "self":
+                out.add("_order")
+    return out
+
+
+def _attr_stores(fn):
+    """[(attr, stmt)] for self.<attr> = ... / self.<attr> op= ... in fn"""
+    out = []
+    for st in walk_no_nested(fn):
+        tg = st.targets if isinstance(st, ast.Assign) else [st.target] if isinstance(st, (ast.AugAssign, ast.AnnAssign)) else []
+        for t in tg:
+            for el in (t.elts if isinstance(t, (ast.Tuple, ast.List)) else [t]):
+                if isinstance(el, ast.Attribute) and isinstance(el.value, ast.Name) and el.value.id == "self":
+                    out.append((el.attr, st))
+    return out
+
+
+def r20_6(chk):
+    chk.rule("R20.6", "derived state stays coherent: when an attribute of Columns is computed from other attributes of the same object (self._template = DictArrayTemplate(self._order); a cached array built from the columns), every method that stores one of those source attributes stores the derived attribute again (recomputes or resets it) on every normal path afterwards -- a stale derived value labels or orders the cells of a row wrongly")
+    from ..cfg import build
+
+    m = chk.repo.module(TABLE)
+    ci = m.cls("Columns")
+    fns = [st for st in ci.node.body if isinstance(st, ast.FunctionDef)]
+    data_attrs = {a for fn in fns for a, _ in _attr_stores(fn)}
+    derived, stateful = {}, set()
+    for fn in fns:
+        if fn.name in ("__init__", "__setstate__"):
+            continue
+        for d, st in _attr_stores(fn):
+            v = st.value
+            if v is None or isinstance(v, ast.Constant):
+                continue
+            flow = _self_attr_flow(ci, fn, v)
+            if d in flow:
+                # updated from its own previous value: state, not a derived attribute
+                stateful.add(d)
+            src = {a for a in flow if a in data_attrs and a != d}
+            if src:
+                derived.setdefault(d, set()).update(src)
+    for d in stateful:
+        derived.pop(d, None)
+    if "_template" not in derived or "_order" not in derived["_template"]:
+        raise AnalysisError(f"R20.6: the derived pair Columns._template <- _order is no longer recognised (derived: {derived})")
+    n = 0
+    for d, srcs in sorted(derived.items()):
+        for fn in fns:
+            stores = _attr_stores(fn)
+            sstores = [st for a, st in stores if a in srcs]
+            if not sstores:
+                continue
+            q = f"Columns.{fn.name}" + (".setter" if any("setter" in norm(dd) for dd in fn.decorator_list) else "")
+            g = build(fn)
+            dnodes = [nd for nd in g.nodes if nd.ast is not None and nd.kind == "stmt" and any(a == d and st is nd.ast for a, st in stores)]
+            for st in sstores:
+                n += 1
+                sn = [nd for nd in g.nodes if nd.ast is st and nd.kind == "stmt"]
+                k = key(m, q, f"{d} follows `{norm(st)[:50]}`")
+                if st in [x.ast for x in dnodes]:
+                    chk.ok("R20.6", k, m.loc(st), "same statement")
+                    continue
+                if fn.name == "__init__":
+                    chk.decide(bool(dnodes), "R20.6", k, m.loc(st), f"__init__ sets {d} too", f"__init__ sets the source but never {d}")
+                    continue
+                okd = bool(dnodes) and bool(sn) and all(g.always_followed_by(x, dnodes, exceptional=False)[0] for x in sn)
+                chk.decide(okd, "R20.6", k, m.loc(st), f"self.{d} is stored again on every normal path after it", f"`{norm(st)[:70]}` changes a source of self.{d} (derived from {sorted(srcs)}) but {fn.name} can return without storing self.{d} again: the stale value is used by the next reader (rows iterated after `t.index_name = 'b'` carry the labels of the old column order)")
+    chk.floor("R20.6", 4, "stores of _order in Columns")
+
+
 def run(chk):
+    r20_6(chk)
     r20_1(chk)
     r20_2(chk)
     r20_3(chk)
